@@ -20,7 +20,7 @@
    p_file g              the arithmetic skeleton (Model/Arith.v) of the typed tree *)
 From Coq Require Import String List NArith ZArith Bool.
 From ACH Require Import Arith.
-From ACH Require Import ReaderValid ReaderValidFacts FramingFacts DispatchBytes.
+From ACH Require Import ReaderValid ReaderValidFacts ReaderValidCanon LayoutRoundtrip FramingFacts DispatchBytes.
 From ACH Require Import Layouts RecRules Tables ReaderValidSites C01FileEx C01FileObl C01ValidObl.
 Import ListNotations.
 Local Open Scope string_scope.
@@ -70,6 +70,51 @@ Theorem C01_valid_parsed : forall x,
   rec_passb RT x = true -> rec_keepsb LT RT x = true -> rec_passb RT (parsed_rec LT x) = true.
 Proof. exact c01_valid_parsed. Qed.
 Print Assumptions C01_valid_parsed.
+
+(* for 24 of the 26 record types [rec_keepsb] follows from the canonical-value condition of the record
+   codec proofs ([canonb], Props/C01Records.v): every recognised rule of these types reads only fields
+   that String() writes with a simple segment and Parse reads back from its own columns
+   ([rules_simple], evaluated on the regenerated rules and layouts) *)
+Theorem C01_valid_canon_layouts :
+  map l_name canon_layouts =
+  [ "ADVBatchControl"; "ADVEntryDetail"; "ADVFileControl"; "Addenda02"; "Addenda05"; "Addenda10"; "Addenda11"; "Addenda12"
+  ; "Addenda13"; "Addenda14"; "Addenda15"; "Addenda16"; "Addenda17"; "Addenda18"; "Addenda98"; "Addenda98Refused"
+  ; "Addenda99Contested"; "Addenda99Dishonored"; "BatchControl"; "BatchHeader"; "EntryDetail"; "FileControl"
+  ; "IATBatchHeader"; "IATEntryDetail" ].
+Proof. exact canon_layouts_names. Qed.
+Print Assumptions C01_valid_canon_layouts.
+
+Theorem C01_valid_canon_keeps : forall x L,
+  layout_of LT (r_kind x) = Some L -> In L canon_layouts ->
+  fitsb L (r_val x) = true -> canonb L (r_val x) = true -> rec_keepsb LT RT x = true.
+Proof. exact c01_canon_keeps. Qed.
+Print Assumptions C01_valid_canon_keeps.
+
+Theorem C01_valid_canon_parsed : forall x L,
+  layout_of LT (r_kind x) = Some L -> In L canon_layouts ->
+  fitsb L (r_val x) = true -> canonb L (r_val x) = true ->
+  rec_passb RT x = true -> rec_passb RT (parsed_rec LT x) = true.
+Proof. exact c01_canon_valid_parsed. Qed.
+Print Assumptions C01_valid_canon_parsed.
+
+(* the two other record types, and the rules of theirs that read something else (a hand-modelled
+   accessor; fields Parse assigns as constants or through its own conversions): there [rec_keepsb]
+   stays the hypothesis *)
+Theorem C01_valid_other_layouts :
+  map (fun L => (l_name L, map fst (filter (fun lc => negb (cond_simple L (snd lc))) (rules_for RT (l_name L))))) other_layouts =
+  [ ("Addenda99", ["Addenda99.Validate#3"])
+  ; ("FileHeader", [ "FileHeader.fieldInclusion#1"; "FileHeader.fieldInclusion#2"; "FileHeader.fieldInclusion#3"
+                   ; "FileHeader.fieldInclusion#5"; "FileHeader.fieldInclusion#6"; "FileHeader.fieldInclusion#7"
+                   ; "FileHeader.ValidateWith#10"; "FileHeader.ValidateWith#11"; "FileHeader.ValidateWith#12"
+                   ; "FileHeader.ValidateWith#14"; "CheckRoutingNumber#15"; "CheckRoutingNumber#16" ]) ].
+Proof. exact other_layouts_rules. Qed.
+
+Theorem C01_valid_canon_example :
+  let x := parsed_rec LT (bt_hdr (hd (mkBat a02 [] a02) (fl_iat ex_iat))) in
+  layout_of LT (r_kind x) = Some L_IATBatchHeader
+  /\ fitsb L_IATBatchHeader (r_val x) = true /\ canonb L_IATBatchHeader (r_val x) = true /\ rec_passb RT x = true
+  /\ rec_keepsb LT RT x = true.
+Proof. exact canon_example. Qed.
 
 (* write then read WITH validation: any number of filler records *)
 Theorem C01_valid_roundtrip : forall f k,
@@ -141,6 +186,18 @@ Theorem C01_valid_parsed_blank_field_refuted :
   /\ rec_keepsb LT RT a02_blank_city = false /\ rec_passb RT (parsed_rec LT a02_blank_city) = false
   /\ rec_passb RT a02 = true /\ rec_keepsb LT RT a02 = true /\ rec_passb RT (parsed_rec LT a02) = true.
 Proof. exact blank_city_refuted. Qed.
+
+(* FileHeader: a creation date of six characters that is no calendar date validates (only `!= ""` is
+   tested), is written as it is, is blanked by Parse and the header read back is rejected (known finding
+   roundtrip:valid:file-creation-date-not-calendar:read-error, replayed on the Go code) *)
+Theorem C01_valid_roundtrip_file_creation_date_refuted :
+  let f := set_hdr "FileCreationDate" (VS (bstr "250230")) ex_std in
+  all_file (rec_fitsb LT) f = true /\ all_file (rec_stableb LT) f = false /\ dispatchb LT f = true
+  /\ all_file (rec_passb RT) f = true /\ batches_okb AT (parsed_file LT f) = true
+  /\ rec_keepsb LT RT (fl_hdr f) = false /\ rec_passb RT (parsed_rec LT (fl_hdr f)) = false
+  /\ read_file LT (write_file_padded LT f) = Some (parsed_file LT f)
+  /\ read_file_valid LT RT AT (write_file_padded LT f) = None.
+Proof. exact file_creation_date_refuted. Qed.
 
 (* ... while a value that merely comes back padded is fine *)
 Theorem C01_valid_padded_name_kept :
